@@ -41,6 +41,7 @@ type Rewrite struct {
 	Match   string `json:"match"`
 	Replace string `json:"replace"`
 	Why     string `json:"why"`
+	All     bool   `json:"all"` // every occurrence (at least one) instead of exactly one
 }
 
 // rewrittenSources returns absolute path -> rewritten content.
@@ -59,7 +60,7 @@ func rewrittenSources(spec *Spec) (map[string][]byte, error) {
 		if err != nil {
 			return nil, err
 		}
-		if n := len(re.FindAllIndex(b, -1)); n != 1 {
+		if n := len(re.FindAllIndex(b, -1)); n != 1 && !(rw.All && n >= 1) {
 			return nil, fmt.Errorf("scaled_source: %q matches %d times in %s (must match exactly once)", rw.Match, n, rw.File)
 		}
 		out[p] = re.ReplaceAll(b, []byte(rw.Replace))
